@@ -1,11 +1,47 @@
 import EupsModel.Drv.Util
 import EupsModel.Drv.Echo
+import EupsModel.Drv.C01
+import EupsModel.Drv.C02
+import EupsModel.Drv.C03
+import EupsModel.Drv.C04
+import EupsModel.Drv.C05
+import EupsModel.Drv.C06
+import EupsModel.Drv.C07
+import EupsModel.Drv.C08
+import EupsModel.Drv.C09
+import EupsModel.Drv.C10
+import EupsModel.Drv.C11
 import EupsModel.Drv.C12
-/-! Registry of driver handlers: model name ↦ handler.  One line per handler module. -/
+import EupsModel.Drv.C13
+import EupsModel.Drv.C14
+import EupsModel.Drv.C15
+import EupsModel.Drv.C16
+import EupsModel.Drv.C17
+import EupsModel.Drv.C18
+/-! Registry of driver handlers: model name ↦ handler.  Handler `cNN` belongs to property CNN and may
+dispatch further on an "op" field of the request; "path" is the historical name of the C12 handler. -/
 namespace EupsModel.Drv
 
 def registry : List (String × Handler) :=
   [ ("echo", Echo.handle),
-    ("path", C12.handle) ]
+    ("path", C12.handle),
+    ("c01", C01.handle),
+    ("c02", C02.handle),
+    ("c03", C03.handle),
+    ("c04", C04.handle),
+    ("c05", C05.handle),
+    ("c06", C06.handle),
+    ("c07", C07.handle),
+    ("c08", C08.handle),
+    ("c09", C09.handle),
+    ("c10", C10.handle),
+    ("c11", C11.handle),
+    ("c12", C12.handle),
+    ("c13", C13.handle),
+    ("c14", C14.handle),
+    ("c15", C15.handle),
+    ("c16", C16.handle),
+    ("c17", C17.handle),
+    ("c18", C18.handle) ]
 
 end EupsModel.Drv
